@@ -3,7 +3,9 @@
    has finished or has received everything that was queued for it and sits in its blocking wait.  Consequences: every
    queued Message can be delivered, and a shutdown (NULL Message queued) can always run to completion -- no reachable
    state is a trap.  (The safety-form theorems of ThreadQProofs say a step is enabled; this says the steps lead
-   somewhere, by a measure that every such step decreases.)  StartInternalThread as repaired. *)
+   somewhere, by a measure that every such step decreases.)  StartInternalThread as repaired.
+   Premise [Hnoself]: the subclass's MessageReceivedFromOwner sends replies only, no Messages to the internal thread
+   itself -- a thread that keeps feeding its own queue need never drain it. *)
 From Coq Require Import List Arith Bool Lia NArith.
 From Muscle Require Import Conc.ThreadQ Conc.ThreadQWf Conc.ThreadQWake Conc.ThreadQProofs.
 Import ListNotations.
@@ -13,8 +15,9 @@ Ltac inv H := inversion H; subst; clear H.
 Section Progress.
 Variable absorb_n : nat.
 Variable no_limit : N.
-Variable react : nat -> list msg * bool.
+Variable react : nat -> list (chanid * msg) * bool.
 Hypothesis Hnl : (0 < no_limit)%N.
+Hypothesis Hnoself : forall x, Forall (fun cm => fst cm = CO) (fst (react x)).
 Variables smode emode : bool.
 
 Notation Step := (Step false absorb_n no_limit react).
@@ -120,20 +123,62 @@ Ltac sig_frame Hs :=
   let F := fresh "F" in pose proof (signal_frame _ _ _ _ _ Hs) as F;
   destruct F as (F1 & F2 & F3 & F4 & F5 & F6 & F7 & F8 & F9 & F10 & F11 & F12).
 
-Lemma W_next_reply : forall sk evd rs qt p k' e' q,
+Definition all_co (rs : list (chanid * msg)) : Prop := Forall (fun cm => fst cm = CO) rs.
+
+(* the internal thread is sending replies only *)
+Definition replies_only (l : local) : Prop :=
+  match l_pc l, l_k l with
+  | PSendCS c _, [KReplies rs _] | PSendSig c _, [KReplies rs _] => c = CO /\ all_co rs
+  | _, _ => True
+  end.
+
+Lemma next_reply_ro : forall evd rs qt p k' e', all_co rs -> next_reply evd rs qt [] = (p, k', e') -> replies_only (mkL p k').
+Proof.
+  intros evd rs qt p k' e' F H. unfold next_reply in H. destruct rs as [|[c m] rest]; inv H.
+  - destruct qt; [|destruct evd]; exact Coq.Init.Logic.I.
+  - inversion F; subst. unfold replies_only. simpl in *. auto.
+Qed.
+
+Lemma W_next_reply : forall sk evd rs qt p k' e' q, all_co rs ->
   next_reply evd rs qt [] = (p, k', e') -> W sk evd (mkL p k') q < 1 + 2 * length rs + final evd qt q.
 Proof.
-  intros sk evd rs qt p k' e' q H. unfold next_reply in H. destruct rs as [|r rest]; inv H.
+  intros sk evd rs qt p k' e' q F H. unfold next_reply in H. destruct rs as [|[c m] rest]; inv H.
   - destruct qt, evd; unfold final, W, wloop; simpl; lia.
-  - unfold W. simpl. lia.
+  - inversion F; subst. simpl in *. subst c. unfold W. simpl. lia.
 Qed.
+
+Lemma dispatch_ro : forall evd r p k' e', dispatch react evd r [] = (p, k', e') -> replies_only (mkL p k').
+Proof.
+  intros evd r p k' e' H. unfold dispatch in H.
+  destruct r as [ | [y|] n | | | | | | ]; try (inv H; try destruct evd; exact Coq.Init.Logic.I).
+  destruct (next_reply evd (fst (react y)) (snd (react y)) []) as [[p1 k1] e1] eqn:En. inv H.
+  eapply next_reply_ro; [apply Hnoself | exact En].
+Qed.
+
+Lemma Step_ro : forall c g l g' l' ev, ipc_ok l -> replies_only l -> Step c g l g' l' ev -> replies_only l'.
+Proof.
+  intros c g l g' l' ev Hi Hro HS.
+  inversion HS; subst; clear HS; unfold ipc_ok in Hi; simpl in Hi; try contradiction;
+    try exact Coq.Init.Logic.I;
+    repeat match goal with y : chanid |- _ => destruct y end; simpl in Hi; try contradiction;
+    try exact Coq.Init.Logic.I;
+    try (match type of Hi with match ?kk with _ => _ end => destruct kk as [|[] [|? ?]] end; try contradiction);
+    try (unfold replies_only in *; simpl in *; tauto);
+    try (unfold replies_only in Hro; simpl in Hro; destruct Hro; discriminate);
+    match goal with Hr : ret _ _ _ _ = _ |- _ =>
+      first [ eapply dispatch_ro; exact Hr
+            | eapply next_reply_ro; [|exact Hr]; unfold replies_only in Hro; simpl in Hro; tauto ] end.
+Qed.
+
+
 
 (* one step of the internal thread, when it is not blocked, gets closer *)
 Lemma int_progress : forall s, wf smode emode s -> g_ist (s_g s) = ILive -> blocked (s_g s) (g_il (s_g s)) = false ->
+  replies_only (g_il (s_g s)) ->
   exists s' ev, sys_step s (LStep I CRun) = Some (s', ev) /\
     (g_ist (s_g s') = IExited \/ drained s' \/ (g_ist (s_g s') = ILive /\ mu s' < mu s)).
 Proof.
-  intros s W0 Hl Hb.
+  intros s W0 Hl Hb Hro.
   destruct (step_enabled false absorb_n no_limit react _ _ Hb) as [[[g' l'] e] Hx].
   exists (mkS (set_il l' g') (s_l s)), e. split; [simpl; rewrite Hl, Hx; reflexivity|].
   pose proof (wf_ipc _ _ _ W0 Hl) as Hi.
@@ -149,23 +194,25 @@ Proof.
   destruct (g_il (s_g s)) as [p k] eqn:El.
   inversion Hx; subst; clear Hx; unfold ipc_ok in Hi; simpl in Hi; try contradiction.
   - (* 1: a reply is appended *)
-    destruct x; [destruct m; contradiction|]. destr_k k.
+    destr_k k. assert (x = CO) by (unfold replies_only in Hro; simpl in Hro; tauto). subst x.
     right; right. split; [exact Hl|]. rewrite Hpen0 by reflexivity. unfold W, wloop, final; simpl; lia.
   - (* 2: its signal *)
-    destruct x; try contradiction. destr_k k.
+    destr_k k. assert (x = CO) by (unfold replies_only in Hro; simpl in Hro; tauto). subst x.
+    assert (Hco : all_co rs) by (unfold replies_only in Hro; simpl in Hro; tauto).
     match goal with Hs : signal _ _ _ = _ |- _ => sig_frame Hs end.
     match goal with Hr : ret _ _ _ _ = _ |- _ => simpl in Hr; rename Hr into HR end.
     right; right. split; [congruence|].
     rewrite Hpen0 by (eapply next_reply_looks; exact HR).
     destruct (F9 CI) as (Q & _). simpl in Q. rewrite Q, F1.
-    pose proof (W_next_reply (g_sockets (s_g s)) _ _ _ _ _ _ (c_q (g_ci (s_g s))) HR) as HW.
+    pose proof (W_next_reply (g_sockets (s_g s)) _ _ _ _ _ _ (c_q (g_ci (s_g s))) Hco HR) as HW.
     rewrite F2 in *. eapply Nat.lt_le_trans; [rewrite Nat.add_0_r; exact HW|]. unfold W; simpl; lia.
   - (* 3 *)
-    destruct x; try contradiction. destr_k k.
+    destr_k k. assert (x = CO) by (unfold replies_only in Hro; simpl in Hro; tauto). subst x.
+    assert (Hco : all_co rs) by (unfold replies_only in Hro; simpl in Hro; tauto).
     match goal with Hr : ret _ _ _ _ = _ |- _ => simpl in Hr; rename Hr into HR end.
     right; right. split; [exact Hl|].
     rewrite Hpen0 by (eapply next_reply_looks; exact HR).
-    pose proof (W_next_reply (g_sockets (s_g s)) _ _ _ _ _ _ (c_q (g_ci (s_g s))) HR) as HW.
+    pose proof (W_next_reply (g_sockets (s_g s)) _ _ _ _ _ _ (c_q (g_ci (s_g s))) Hco HR) as HW.
     eapply Nat.lt_le_trans; [rewrite Nat.add_0_r; exact HW|]. unfold W; simpl; lia.
   - (* 4: absorb *)
     destruct x; [|destr_k k]. destr_k k.
@@ -194,7 +241,7 @@ Proof.
     destruct m as [y|].
     + destruct (next_reply (g_evd (s_g s)) (fst (react y)) (snd (react y)) []) as [[p1 k1] e1] eqn:En. inv HR.
       rewrite Hpen0 by (eapply next_reply_looks; exact En).
-      pose proof (W_next_reply (g_sockets (s_g s)) _ _ _ _ _ _ (c_q (g_ci (s_g s))) En) as HW.
+      pose proof (W_next_reply (g_sockets (s_g s)) _ _ _ _ _ _ (c_q (g_ci (s_g s))) (Hnoself y) En) as HW.
       eapply Nat.lt_le_trans; [rewrite Nat.add_0_r; exact HW|]. unfold W, rsn, quits; simpl; lia.
     + inv HR. rewrite Hpen0 by reflexivity. unfold W, wloop, final; simpl; lia.
   - (* 8: the poll found nothing *)
@@ -267,6 +314,9 @@ Proof.
     right; right. split; [exact Hl|]. rewrite Hpen0 by reflexivity. unfold W, wloop, final; simpl; lia.
   - (* 23: the thread finishes *)
     left. reflexivity.
+  - (* woken by a user socket: not the internal thread *)
+    destruct x; [|destr_k k]. exfalso.
+    match goal with Hw : wakeable _ CI = true, Hr : readable _ CI = false |- _ => rewrite wakeable_CI in Hw; congruence end.
 Qed.
 
 (* a blocked internal thread (under ipc_ok) sits in one of its two waits, which are not satisfiable *)
@@ -276,7 +326,7 @@ Proof.
   intros g [p k] Hi Hb. unfold ipc_ok in Hi. unfold blocked in Hb. simpl in *.
   destruct p; try discriminate; try contradiction.
   all: try (destruct c); try (destruct k as [|[] [|? ?]]); try contradiction;
-    apply negb_true_iff in Hb; split; [reflexivity | exact Hb].
+    apply negb_true_iff in Hb; rewrite ?wakeable_CI in Hb; split; [reflexivity | exact Hb].
 Qed.
 
 (* when the internal thread is blocked with Messages queued, a thread that owes it the signal gets closer to sending it *)
@@ -336,6 +386,26 @@ Proof.
   intros s W0 Hl Hb Hq. right. destruct (blocked_int _ _ (wf_ipc _ _ _ W0 Hl) Hb) as [Hw _]. auto.
 Qed.
 
+(* while it is alive the internal thread is sending replies only (from Hnoself) *)
+Lemma reachable_ro : forall s, R s -> g_ist (s_g s) = ILive -> replies_only (g_il (s_g s)).
+Proof.
+  intros s Rs. induction Rs as [|s lab s' ev Rs IH _ Hs]; [intros H; discriminate|].
+  pose proof (reachable_wf false absorb_n no_limit react any_label smode emode s Rs) as W0.
+  intros Hl'. destruct lab as [t o | [t|] c]; simpl in Hs.
+  - destruct (begin_op t o (s_l s t)); [|discriminate]. inv Hs. simpl in *. auto.
+  - destruct (step c (s_g s) (s_l s t)) as [[[g' l'] e']|] eqn:Hst; [|discriminate]. inv Hs. simpl in *.
+    apply step_spec in Hst.
+    destruct (Step_running _ _ _ _ _ _ _ _ _ _ Hst) as [[n Hn] | [Hj | [Hx | (R1 & R2 & R3 & R4)]]].
+    + destruct (s_l s t) as [p k]. simpl in Hn. subst p. inversion Hst; subst. simpl. exact Coq.Init.Logic.I.
+    + destruct (s_l s t) as [p k]. simpl in Hj. subst p. inversion Hst; subst. simpl in Hl'. discriminate.
+    + pose proof (wf_upc _ _ _ W0 t) as Hu. destruct (s_l s t) as [p k]. simpl in Hx. subst p.
+      unfold upc_ok in Hu. simpl in Hu. contradiction.
+    + rewrite R3. apply IH. congruence.
+  - destruct (g_ist (s_g s)) eqn:Hl; try discriminate.
+    destruct (step c (s_g s) (g_il (s_g s))) as [[[g' l'] e']|] eqn:Hst; [|discriminate]. inv Hs. simpl in *.
+    apply step_spec in Hst. eapply Step_ro; [apply (wf_ipc _ _ _ W0 Hl) | apply IH; reflexivity | exact Hst].
+Qed.
+
 (* Every queued Message can be delivered: from every reachable state with a live internal thread there is a
    continuation of helper steps at whose end the thread has finished or has emptied its queue and is about to block. *)
 Theorem can_drain : forall s, R s -> g_ist (s_g s) = ILive -> canreach (fun s' => R s' /\ drained s') s.
@@ -351,7 +421,7 @@ Proof.
       assert (Rs' : R s') by (eapply reach_step; eauto; reflexivity).
       eapply cr_step; [right; exists t; auto | exact Hs |].
       eapply (IH (mu s')); eauto. lia.
-  - destruct (int_progress s W0 Hl Hb) as (s' & ev & Hs & Hc).
+  - destruct (int_progress s W0 Hl Hb (reachable_ro s Rs Hl)) as (s' & ev & Hs & Hc).
     assert (Rs' : R s') by (eapply reach_step; eauto; reflexivity).
     eapply cr_step; [left; reflexivity | exact Hs |].
     destruct Hc as [Hx | [Hd | [Hl' Hm]]].
@@ -397,6 +467,10 @@ Proof.
       try (destruct G' as [A | B]; [left; exact A | simpl in B; try discriminate]; fail).
     all: try (destruct x; simpl in Hi; try contradiction).
     all: try (destruct G' as [A | B]; [left; simpl; exact A | simpl in B; try discriminate]; fail).
+    + destruct G' as [A | B]; [|simpl in B; discriminate]. left. unfold enq. simpl. apply in_or_app. left. exact A.
+    + destruct G' as [A | B]; [|simpl in B; discriminate]. left.
+      match goal with Hs : signal _ _ _ = _ |- _ => apply signal_frame in Hs; destruct Hs as (_&_&_&_&_&_&_&_&F9&_) end.
+      destruct (F9 CI) as (Q & _). simpl in Q. rewrite Q. exact A.
     + destruct G' as [A | B]; [|simpl in B; discriminate]. left.
       match goal with Hs : signal _ _ _ = _ |- _ => apply signal_frame in Hs; destruct Hs as (_&_&_&_&_&_&_&_&F9&_) end.
       destruct (F9 CI) as (Q & _). simpl in Q. rewrite Q. exact A.
@@ -454,16 +528,19 @@ Proof.
 Qed.
 
 (* helper steps never append to the internal thread's queue *)
-Lemma helper_keeps_sent : forall s lab s' ev, wf smode emode s -> helper s lab -> sys_step s lab = Some (s', ev) ->
+Lemma helper_keeps_sent : forall s lab s' ev, wf smode emode s ->
+  (g_ist (s_g s) = ILive -> replies_only (g_il (s_g s))) ->
+  helper s lab -> sys_step s lab = Some (s', ev) ->
   c_sent (g_ci (s_g s')) = c_sent (g_ci (s_g s)).
 Proof.
-  intros s lab s' ev W0 Hh H.
+  intros s lab s' ev W0 Hro0 Hh H.
   destruct Hh as [-> | (t & -> & Pt)]; simpl in H.
   - destruct (g_ist (s_g s)) eqn:Hl; try discriminate.
     destruct (step (CRun) (s_g s) (g_il (s_g s))) as [[[g' l'] e']|] eqn:Hst; [|discriminate]. inv H.
-    apply step_spec in Hst. pose proof (wf_ipc _ _ _ W0 Hl) as Hi. simpl.
+    apply step_spec in Hst. pose proof (wf_ipc _ _ _ W0 Hl) as Hi. pose proof (Hro0 eq_refl) as Hro. simpl.
     destruct (g_il (s_g s)) as [p k] eqn:El.
     inversion Hst; subst; clear Hst; unfold ipc_ok in Hi; simpl in Hi; try contradiction; auto;
+      try (destruct k as [|[] [|? ?]]; try contradiction; unfold replies_only in Hro; simpl in Hro; destruct Hro as [-> _]; reflexivity);
       try (match goal with Hs : signal _ _ _ = _ |- _ => apply signal_frame in Hs; destruct Hs as (_&_&_&_&_&_&_&_&F9&_);
              destruct (F9 CI) as (_ & Q & _); simpl in Q; exact Q end);
       try (destruct x; simpl in Hi; try contradiction; try (destruct m; contradiction); reflexivity).
@@ -496,7 +573,7 @@ Proof.
     split; [symmetry; exact F'|].
     destruct D as [E | (_ & Qx & _)]; auto.
   - unfold Inv. intros x lab x' ev Rx (Sx & b & Bx) Hh Hs. split.
-    + rewrite <- Sx. eapply helper_keeps_sent; eauto. eapply reachable_wf; eauto.
+    + rewrite <- Sx. eapply helper_keeps_sent; eauto; [eapply reachable_wf; eauto | apply reachable_ro; exact Rx].
     + destruct (sys_step_hist _ _ _ _ _ _ _ _ Hs) as [_ E]. destruct (E CI) as (a1 & b1 & _ & Eb). simpl in Eb.
       exists (b ++ b1). rewrite Eb, Bx, app_assoc. reflexivity.
   - unfold Inv. split; [reflexivity | exists []; rewrite app_nil_r; reflexivity].
